@@ -82,7 +82,7 @@ var c03Partitions = []string{"one", "bytes", "msgs", "span", "hdr", "rand"}
 func c03World(t *testing.T, p c03Params) rt.Result {
 	r := rt.Get().Rand("c03w", int(p.Seed))
 	var nsent, ndeliv int
-	out := hz.Run(t, hz.Opts{Seed: p.Seed, HookMode: p.Hook, EOFWithData: p.Seed%3 == 0}, func(w *hz.World) {
+	out := hz.Run(t, hz.Opts{Seed: p.Seed, HookMode: p.Hook, EOFWithData: mix(p.Seed)%3 == 0}, func(w *hz.World) {
 		ps := hz.StdPeer("10.0.1.1")
 		ps.Passive = p.Dir == "in"
 		hr := rand.New(rand.NewPCG(p.Seed, 99))
